@@ -59,6 +59,9 @@ CHECKS = {
 CHECKS["C19"] = dict(level="model_checking", technique="symbolic execution of the MIR of the SM2 encoders/decoders over bit-vectors; third-party DER/hex/SPKI crates summarised at their API; field/group layers as z3 uninterpreted functions",
              text="encrypt_asn1 writes SEQUENCE{INTEGER C1.x, INTEGER C1.y, OCTET STRING C3, OCTET STRING C2} from the right bytes of the raw ciphertext for both component orders; decrypt_asn1 left-pads shortened INTEGERs, rejects oversize fields and parser errors without panicking and hands 04||x||y||... to decrypt; Point::from_byte accepts only 33/65-byte encodings and reads x,y from the right bytes; Sm2PublicKey::new / from_hex_string / SPKI TryFrom accept only points that satisfy the curve check and never panic; private key bytes round-trip and only 32-byte scalars in [1,n-2] are accepted.",
              note="byte-level DER by yasna/num-bigint and whole PKCS#8/SPKI/PEM documents (pkcs8, der, sec1, base64ct), OpenSSL interoperability: OUTSIDE (cut at the API); compressed-point square-root/parity argument only as data-flow.", design="§2 C19", engine="mirsmt")
+CHECKS["C20"] = dict(level="model_checking", technique="symbolic execution of each entry point's MIR for a sweep of input lengths with symbolic contents; every reachable MIR assert, panic call, failing unwrap or unbounded deterministic loop is a proof obligation (z3)",
+             text="No panic and no non-terminating loop for: SM2 verify (signature lengths 0..66), decrypt (0..100 x 2 orders x 2 encodings), decrypt_asn1 (arbitrary parser results), Sm2PublicKey::new/from_hex_string/SPKI TryFrom, Sm2PrivateKey::new (+ accepted keys lie in [1,n-2], signing retry not forced), Point::from_byte (0..66), util::kdf; SM4 Sm4Cipher::new/encrypt/decrypt and all four modes (key/IV/data length sweeps); SM9 decrypt, verify_sign, kdf. KNOWN FINDING: mod_n_from_hash panics on inputs shorter than 40 bytes.",
+             note="arithmetic/group callees are total uninterpreted functions here (their own panic-freedom: C11/C13/C16); third-party parsers on raw documents and resource exhaustion outside; ZUC/EEA/EIA not among the listed entry points.", design="§2 C20", engine="mirsmt")
 NA_REASON = "check not built yet in this session (see DESIGN.md build order); will be claimed once its check passes on the unchanged tree"
 def main():
     checks = []
